@@ -20,7 +20,7 @@ CROSS = {
     "C10-17": ["C09"], "C02-17": ["C10"], "C08-17": ["C02"],
     "C02-18": ["C20"], "C02-19": ["C20"], "C05-18": ["C07"], "C08-19": ["C07"],
     "C02-20": ["C20"], "C04-20": ["C12"], "C07-20": ["C11"], "C05-21": ["C05:thorough"],
-    "C08-20": ["C07"], "C08-21": ["C07"],
+    "C08-20": ["C07"], "C08-21": ["C07"], "C05-23": ["C07"],
 }
 
 
